@@ -326,6 +326,31 @@ func genC19(t *rapid.T) C19Case {
 			case "newrat":
 				s.I = genBigIntString(t, "num", 40)
 				s.Den = rapid.SampledFrom([]string{"1", "3", "7", "8", "125", "999"}).Draw(t, "den")
+				if rapid.IntRange(0, 2).Draw(t, "ratnear") == 0 {
+					// a short decimal (representable at any precision that holds its 1-3 digits) plus or minus 1/D with
+					// a D of 50..250 digits: numerator and denominator far longer than the context's precision, the
+					// quotient a hair beside a representable value (or beside a tie when the decimal has one digit more
+					// than the precision)
+					d := big.NewInt(int64(rapid.IntRange(1, 999).Draw(t, "ratd")))
+					den := new(big.Int).Exp(big.NewInt(10), big.NewInt(int64(rapid.IntRange(50, 250).Draw(t, "ratk"))), nil)
+					den.Mul(den, big.NewInt(int64(rapid.SampledFrom([]int{1, 2, 3, 7, 64, 625}).Draw(t, "ratr"))))
+					num := new(big.Int).Mul(d, den)
+					if rapid.Bool().Draw(t, "ratminus") {
+						num.Sub(num, big.NewInt(1))
+					} else {
+						num.Add(num, big.NewInt(1))
+					}
+					// scale the short decimal: d * 10^e
+					if e := rapid.IntRange(-6, 6).Draw(t, "rate"); e >= 0 {
+						num.Mul(num, new(big.Int).Exp(big.NewInt(10), big.NewInt(int64(e)), nil))
+					} else {
+						den.Mul(den, new(big.Int).Exp(big.NewInt(10), big.NewInt(int64(-e)), nil))
+					}
+					if rapid.Bool().Draw(t, "ratneg") {
+						num.Neg(num)
+					}
+					s.I, s.Den = num.String(), den.String()
+				}
 			case "newfloat":
 				s.F = rapid.Uint64().Draw(t, "bfm")
 				if rapid.Bool().Draw(t, "bfshort") {
